@@ -126,7 +126,7 @@ def main():
             "add_only": True,
         },
         "engines": [
-            {"name": "syncneeds", "path": "specs/SyncNeeds.tla + harness/src/syncneeds.rs + lib/prop_c04.py", "serves_properties": ["C04"], "kind_free_text": "TLA+ enumeration + translation-style replay of every input on the real function"},
+            {"name": "syncneeds", "path": "specs/SyncNeeds.tla + specs/SyncClient.tla + specs/MCSyncClient.tla + harness/src/syncneeds.rs + harness/src/syncclient.rs + lib/prop_c04.py", "serves_properties": ["C04"], "kind_free_text": "TLA+ enumeration + translation-style replay of every input on the real function"},
             {"name": "chunker", "path": "specs/Chunker.tla + specs/ChunkRange.tla + harness/src/chunker.rs + lib/prop_c08.py", "serves_properties": ["C08"], "kind_free_text": "TLA+ model checked by TLC; all behaviours replayed"},
             {"name": "members", "path": "specs/Members.tla + specs/MCMembers.tla + harness/src/members.rs + lib/prop_c18.py", "serves_properties": ["C18"], "kind_free_text": "TLA+ model checked by TLC; all edges replayed"},
             {"name": "ingest", "path": "specs/Ingest.tla + specs/TraceIngest.tla + harness/src/ingest.rs + lib/prop_c10.py", "serves_properties": ["C10"], "kind_free_text": "TLA+ model checked by TLC; traces of the real loop validated"},
